@@ -46,6 +46,15 @@ def crosstalk(pms, msg):
         return
     A = pms.adsb
     x = _h(msg)
+    # look-alikes: the same digits under another downlink format that shares the leading hex digit (DF16 with DF17, DF19 with DF18)
+    alike = ("%X%X" % ((8, first & 7) if first >> 3 == 17 else (9, 8 | (first & 7)))) + msg[2:]
+    if msg[2:] != msg[2:].upper():
+        alike = alike.lower()
+    for fn in (pms.common.typecode, pms.common.df, pms.common.icao, A.typecode):
+        try:
+            fn(alike)
+        except Exception:
+            pass
     head = msg[:8]
     low = (x >> 8) & ((1 << 51) - 1)
     ver = 1 + (x & 1)
